@@ -18,7 +18,6 @@
 use quote::ToTokens;
 use std::collections::{BTreeMap, BTreeSet};
 use std::fmt::Write as _;
-use syn::visit::{self, Visit};
 
 mod emit;
 mod graph;
@@ -195,7 +194,6 @@ pub fn tidy(s: &str) -> String {
         (" . ", "."),
         (" ?", "?"),
         ("! ", "!"),
-        (" (", "("),
     ] {
         while t.contains(a) {
             t = t.replace(a, b);
@@ -425,7 +423,7 @@ impl Collector {
                     return;
                 }
                 let info = self.fn_info(&f.sig, &f.vis, &f.attrs, None, None, &syn::Generics::default(), &BTreeMap::new());
-                self.fns.push(FnDecl { info, body: (*f.block).clone(), local_names: vec![] });
+                self.fns.push(FnDecl { info, body: (*f.block).clone(), local_names: graph::param_locals(&f.sig.inputs) });
             }
             syn::Item::Mod(m) => {
                 if is_cfg_test(&m.attrs) {
@@ -518,7 +516,7 @@ impl Collector {
                         continue;
                     }
                     let info = self.fn_info(&f.sig, &f.vis, &f.attrs, Some(self_name.clone()), trait_name.clone(), &i.generics, &assoc);
-                    self.fns.push(FnDecl { info, body: f.block.clone(), local_names: vec![] });
+                    self.fns.push(FnDecl { info, body: f.block.clone(), local_names: graph::param_locals(&f.sig.inputs) });
                 }
                 syn::ImplItem::Macro(m) => {
                     self.warnings.push(format!("{}:{}: impl item macro `{}` not expanded", self.file, line_of(m), ts(&m.mac.path)));
@@ -539,26 +537,15 @@ impl Collector {
             line: line_of(&i.impl_token),
             bounds: vec![],
             text: format!(
-                "{}impl{} {}{} for {}{}",
+                "{}impl<{}> {}{} for {}{}",
                 if i.unsafety.is_some() { "unsafe " } else { "" },
-                ts(&i.generics.params.to_token_stream()).replace(" :", ":").replace(",>", ">"),
+                ts(&i.generics.params),
                 if negative { "!" } else { "" },
                 tn,
                 ts(&i.self_ty),
                 i.generics.where_clause.as_ref().map(|w| format!(" {}", ts(w))).unwrap_or_default()
             ),
         };
-        mi.text = mi.text.replace("impl", "impl<").replacen("impl<", "impl<", 1);
-        // (cosmetic only) rebuild a readable header
-        mi.text = format!(
-            "{}impl<{}> {}{} for {}{}",
-            if i.unsafety.is_some() { "unsafe " } else { "" },
-            ts(&i.generics.params),
-            if negative { "!" } else { "" },
-            tn,
-            ts(&i.self_ty),
-            i.generics.where_clause.as_ref().map(|w| format!(" {}", ts(w))).unwrap_or_default()
-        );
         let by_name = tparam_bounds(&i.generics);
         // positional arguments of the self type
         let mut args: Vec<Option<String>> = vec![];
@@ -893,7 +880,17 @@ fn collect_carriers(
             for b in &it.bounds {
                 match b {
                     syn::TypeParamBound::Lifetime(l) => out.push(("impl".into(), l.to_string())),
-                    syn::TypeParamBound::Trait(_) => *odd = true,
+                    syn::TypeParamBound::Trait(t) => {
+                        // `impl Fn(&A) -> B + 'x`: the inputs are higher-ranked, only the output can carry a borrow
+                        match t.path.segments.last().map(|s| &s.arguments) {
+                            Some(syn::PathArguments::Parenthesized(pa)) => {
+                                if let syn::ReturnType::Type(_, o) = &pa.output {
+                                    collect_carriers(o, structs, assoc, out, odd, depth + 1);
+                                }
+                            }
+                            _ => *odd = true,
+                        }
+                    }
                     _ => *odd = true,
                 }
             }
@@ -976,6 +973,7 @@ fn main() {
     }
 
     // pass 2: bodies
+    graph::set_plain_ctors(&decls);
     let clone = graph::analyse(&mut decls, &names, &mut warnings);
 
     // signature rows
@@ -1045,7 +1043,3 @@ fn write_if_changed(path: &str, content: &str) -> std::io::Result<()> {
     }
     std::fs::write(path, content)
 }
-
-// re-export for the sub-modules
-pub use visit::visit_block as _visit_block;
-pub fn _unused(_: &dyn for<'a> Visit<'a>) {}
